@@ -62,6 +62,7 @@ func runProperty(prop string, spec propSpec, tier, repo, verif, outDir string, s
 		return 2
 	}
 	r := NewRun(p, prop, tier, seed)
+	r.Spec = &spec
 	defer func() {
 		if e := recover(); e != nil {
 			fmt.Printf("UNDECIDED property=%s reason=internal panic: %v\n%s\n", prop, e, debug.Stack())
